@@ -43,7 +43,7 @@ def main(a):
         diff = os.path.join(out, 'm%s.diff' % k)
         demo = os.path.join(out, 'm%s_demo.py' % k)
         note = os.path.join(out, 'm%s.txt' % k)
-        sid = '%s-%sm%s' % (prop, 'w2' if '/sb-' in src else 'w3' if '/sc-' in src else 'w4' if '/sd-' in src else '', k)
+        sid = '%s-%sm%s' % (prop, 'w2' if '/sb-' in src else 'w3' if '/sc-' in src else 'w4' if '/sd-' in src else 'w5' if '/se-' in src else '', k)
     wt = '/tmp/vp-seed-%s' % sid
     sh('git -C /repo worktree remove --force %s' % wt)
     rc, o = sh('git -C /repo worktree add -q %s HEAD' % wt)
@@ -57,7 +57,7 @@ def main(a):
         # demonstrations may name their author's worktree: point them at this scratch worktree
         import re as _re
         txt = open(demo, encoding='utf-8').read()
-        txt2 = _re.sub(r'/tmp/s[a-d]-C[0-9]+', wt, txt)
+        txt2 = _re.sub(r'/tmp/s[a-e]-C[0-9]+', wt, txt)
         # ... or locate the tree relative to their own file (<tree>/_out/demo.py): run a copy from <wt>/_out/
         os.makedirs(os.path.join(wt, '_out'), exist_ok=True)
         demo_run = os.path.join(wt, '_out', os.path.basename(demo))
